@@ -540,6 +540,26 @@ Section SP.
 
   (* ---------------------------------------------------------------------------------------------- *)
   (* select list *)
+  (* t.* read by parseExpression: a qualified asterisk is not a reference expression, so the ladder is walked by hand *)
+  Lemma pe_qstar : forall t X d, stops 0 (cur X) = true -> S d <= md -> 3 + length X < fuel ->
+      pe d (Tk TyIdent t :: tPeriod :: Tk TyAsterisk "*" :: X) = Val (GIdent "*" t, X).
+  Proof.
+    intros t X d HX Hd Hf. destruct fuel as [|f]; [lia|].
+    change (parse_expression md no_defects (S f) d) with (PE md (S f) d). rewrite PE_S. unfold expr_body.
+    destruct (Nat.ltb_spec md (S d)); [lia|].
+    change (Tk TyIdent t :: tPeriod :: Tk TyAsterisk "*" :: X) with ([Tk TyIdent t; tPeriod; Tk TyAsterisk "*"] ++ X).
+    apply (Pg_direct md 0 f (S d) [Tk TyIdent t; tPeriod; Tk TyAsterisk "*"] (GIdent "*" t) X); [|exact HX].
+    apply (lift_down md 7 0); [lia|reflexivity| |eapply stops_mono; [|exact HX]; cbn; lia].
+    intros R HK. cbn [Kg] in HK. inversion HK; subst R. clear HK. cbn [rg plus app].
+    assert (Hc8 : cont8 (cur X) = false).
+    { unfold stops in HX. apply andb_prop in HX. destruct HX as [HX _]. repeat (apply andb_prop in HX; destruct HX as [HX _]).
+      apply negb_true_iff in HX. exact HX. }
+    unfold cont8 in Hc8. repeat (apply orb_false_elim in Hc8; destruct Hc8 as [Hc8 ?]).
+    unfold ExprParseP.r7, primary. cbn [cur advance peek]. isT_conc. cbn [andb orb negb]. cbn iota. cbn [cur advance lit]. isT_conc. cbn iota.
+    cbn [bind cur advance].
+    match goal with Hb : isT (cur X) TyLBracket = false |- _ => rewrite Hb end. reflexivity.
+  Qed.
+
   Lemma is_gident_ast : forall e, is_gident (ast_of e) = is_column_ref e.
   Proof. destruct e; reflexivity. Qed.
 
@@ -557,14 +577,17 @@ Section SP.
   Lemma item_step : forall it (r : rho) X d n acc,
       item_ok it = true -> (d_no_alias_after_column sf = false \/ bare_alias_free it = true) ->
       stops 0 (cur X) = true -> no_alias_head X ->
-      S d + match it with IStar => 0 | IExpr e _ => pdepth 0 r e end <= md -> length (item_toks r it ++ X) < fuel ->
+      S d + match it with IExpr e _ => pdepth 0 r e | _ => 0 end <= md -> length (item_toks r it ++ X) < fuel ->
       select_items sf pe (S n) d acc (item_toks r it ++ X)
       = if isT (cur X) TyComma then select_items sf pe n d (acc ++ [ast_of_item it]) (advance X)
         else Val (acc ++ [ast_of_item it], X).
   Proof.
     intros it r X d n acc Hok Hflag HX [HXas HXal] Hdep Hlen. cbn [select_items]. unfold parse_select_item.
-    destruct it as [|e a]; cbn [item_toks app cur advance ast_of_item]; cbn [item_toks] in Hlen; cbn iota in Hdep.
+    destruct it as [|t|e a]; cbn [item_toks app cur advance ast_of_item]; cbn [item_toks] in Hlen; cbn iota in Hdep.
     - isT_conc. cbn iota. cbn [bind]. reflexivity.
+    - isT_conc. cbn iota. cbn [app length] in Hlen.
+      rewrite pe_qstar; [|exact HX|lia|lia].
+      cbn [bind]. rewrite HXas, HXal. cbn [bind]. reflexivity.
     - cbn [item_ok] in Hok. apply andb_prop in Hok. destruct Hok as [Hre Hal].
       rewrite <- app_assoc in *. rhd.
       rewrite pe_item; [|assumption| |assumption|assumption].
@@ -865,9 +888,11 @@ Section SP.
   Lemma item_head_not : forall it (r : rho) X k, notin k (TyAsterisk :: starts_list) = true ->
       isT (cur (item_toks r it ++ X)) k = false.
   Proof.
-    intros it r X k Hk. destruct it as [|e a]; cbn [item_toks].
+    intros it r X k Hk. destruct it as [|t|e a]; cbn [item_toks].
     - cbn [app cur]. unfold notin in Hk. cbn [forallb] in Hk. apply andb_prop in Hk. destruct Hk as [Hk _].
       apply negb_true_iff in Hk. unfold isT, tty_eqb. cbn [ty]. exact Hk.
+    - cbn [app cur]. unfold notin, starts_list in Hk. cbn [forallb] in Hk. apply andb_prop in Hk. destruct Hk as [_ Hk].
+      apply andb_prop in Hk. destruct Hk as [Hk _]. apply negb_true_iff in Hk. unfold isT, tty_eqb. cbn [ty]. exact Hk.
     - rewrite <- app_assoc. apply head_isT_not. apply notin_cons_false in Hk. exact Hk.
   Qed.
 
